@@ -110,8 +110,42 @@ def history_shard(acc, sh, deadline):
         shutil.rmtree(root, ignore_errors=True)
 
 
+def cli_probe(hashseed):
+    """the command line with several -i directories that all hold a file of the included name: whatever precedence rule the
+    assembler applies, the same command must give the same bytes under every hash seed"""
+    from .. import cli
+    root = tempfile.mkdtemp(prefix='bbv-c16-cli-')
+    try:
+        args = []
+        for k, name in enumerate(['inc_alpha', 'inc_beta', 'inc_gamma', 'inc_delta']):
+            d = os.path.join(root, name)
+            os.makedirs(d)
+            open(os.path.join(d, 'board.asm'), 'w').write('BOARD_ID = %d\n' % (k + 1))
+            args += ['-i', d]
+        os.makedirs(os.path.join(root, 'src'))
+        main = os.path.join(root, 'src', 'main.asm')
+        open(main, 'w').write('include board.asm\ndb BOARD_ID\nL:\naddi x8, x8, BOARD_ID\n')
+        outp = os.path.join(root, 'o.bin')
+        r = cli.run_cli([main, '-c', '-o', outp, '-l', os.path.join(root, 'l.txt')] + args, root, extra_env={'PYTHONHASHSEED': str(hashseed)})
+        if r.returncode != 0:
+            return 'exit %d: %s' % (r.returncode, r.stderr[-120:])
+        return open(outp, 'rb').read().hex() + ' ' + open(os.path.join(root, 'l.txt')).read().strip()
+    finally:
+        shutil.rmtree(root, ignore_errors=True)
+
+
 def hashseed_shard(acc, sh, deadline):
     solo = sh['solo']
+    for hs in sh['hashseeds']:
+        for rep in range(3):
+            got = cli_probe(hs)
+            acc['n'] += 1
+            acc['ctr']['cli_hashseed_runs'] += 1
+            acc['ntkeys'].add(core.ckey('clihs', hs, rep))
+            if got != sh['cli_ref']:
+                core.add_viol(acc, 'command line with four -i directories under PYTHONHASHSEED=%s gives %r; under PYTHONHASHSEED=0 it gave %r' % (hs, got, sh['cli_ref']),
+                              {'kind': 'hashseed', 'seed': sh['seed'], 'hashseed': hs}, {})
+                break
     n = len(solo)
     for hs in sh['hashseeds']:
         order = list(range(n))
@@ -147,7 +181,8 @@ def plan(tier, seed):
     rng = random.Random('c16-hs-%d' % seed)
     hs = [0, 1, 2, 3] + ([rng.randrange(4, 1 << 31) for _ in range(4)] if tier == 'quick' else list(range(4, 40)) + [rng.randrange(40, 1 << 31) for _ in range(24)])
     hs += ['random'] * (2 if tier == 'quick' else 6)
-    shards += [{'kind': 'hashseed', 'seed': seed, 'solo': solo, 'hashseeds': [h]} for h in hs]
+    cli_ref = cli_probe(0)
+    shards += [{'kind': 'hashseed', 'seed': seed, 'solo': solo, 'hashseeds': [h], 'cli_ref': cli_ref} for h in hs]
     ok = sum(1 for r in solo if r['ok'])
     return {'shards': shards, 'budget_s': 300 if tier == 'quick' else 3000,
             'extra_cov': {'pool_entries': n, 'pool_entries_succeeding_solo': ok, 'pool_entries_failing_solo': n - ok}}
@@ -173,5 +208,5 @@ def replay(case):
     if case['kind'] == 'history':
         history_shard(acc, {'seed': case['seed'], 'solo': solo, 'histories': [case['history']], 'length': case.get('length', 200)}, time.time() + 600)
     else:
-        hashseed_shard(acc, {'seed': case['seed'], 'solo': solo, 'hashseeds': [case['hashseed']]}, time.time() + 600)
+        hashseed_shard(acc, {'seed': case['seed'], 'solo': solo, 'hashseeds': [case['hashseed']], 'cli_ref': cli_probe(0)}, time.time() + 600)
     return acc
